@@ -23,7 +23,7 @@ static void families(std::vector<RCfg>& out, bool thorough) {
         {INT, ck(1, 3), {"2", "3", "4"}}, {INT, ck(2, 7), {"6", "7", "8"}}, {INT, ck(3, 3, 7), {"2", "3", "6", "7"}},
         {DBL, ck(1, 1.5), {"1.25", "1.5"}}, {DBL, ck(2, 7), {"6.75", "7"}}, {DBL, ck(3, 1.5, 7), {"1.25", "1.5", "7"}},
         {OPTINT, ck(3, 3, 7), {"2", "3", "7"}},
-        {STR, ck(4, 0, 0, "a,b"), {"a", "b", "c", "A", "ab"}}, {STR, ck(5, 2), {"a", "ab"}}, {STR, ck(6, 3), {"abc", "abcd"}}, {STR, ck(7, 0, 0, "[ab]+"), {"ab", "abc", "a"}},
+        {STR, ck(4, 0, 0, "a,b"), {"a", "b", "c", "A", "ab"}}, {STR, ck(8, 0, 0, "ab,Cde"), {"ab", "AB", "a", "cDE", "cd", "C", "abc", "x"}}, {STR, ck(5, 2), {"a", "ab"}}, {STR, ck(6, 3), {"abc", "abcd"}}, {STR, ck(7, 0, 0, "[ab]+"), {"ab", "abc", "a"}},
         {VECINT, ck(3, 3, 7), {"3", "3,6", "3,7", "2"}}, {VECSTR, ck(4, 0, 0, "a,b"), {"a,b", "a,c"}}, {VECSTR, ck(6, 2), {"ab,c", "ab,cde"}} };
      for (auto& cd : cds) { Cfg c; Arg a = mk('a', "alpha", cd.k); a.checks = {cd.c}; c.args = {a, flagB}; push("check", c, {cd.dom, {}}); }
      // two checks on one argument are and-ed
